@@ -118,16 +118,16 @@ Proof. intros. unfold updt. destruct (tid_eqb u t) eqn:E; [apply tid_eqb_eq in E
 Ltac norm_guards :=
   repeat match goal with
   | H : _ && _ = true |- _ => apply andb_prop in H; destruct H
-  | H : Nat.eqb _ _ = true |- _ => apply Nat.eqb_eq in H
-  | H : (_ <? _) = true |- _ => apply Nat.ltb_lt in H
-  | H : negb _ = true |- _ => apply negb_true_iff in H
-  | H : bool_eqb _ _ = true |- _ => apply bool_eqb_eq in H
-  | H : optnat_eqb _ _ = true |- _ => apply optnat_eqb_eq in H
-  | H : outcome_eqb _ _ = true |- _ => apply outcome_eqb_eq in H
-  | H : optout_eqb _ _ = true |- _ => apply optout_eqb_eq in H
-  | H : is_none _ = true |- _ => apply is_none_true in H
-  | H : owned_by _ _ _ = true |- _ => apply owned_by_eq in H
-  | H : running _ = false |- _ => apply running_false in H
+  | H : Nat.eqb _ _ = true |- _ => apply (proj1 (Nat.eqb_eq _ _)) in H
+  | H : (_ <? _) = true |- _ => apply (proj1 (Nat.ltb_lt _ _)) in H
+  | H : negb _ = true |- _ => apply (proj1 (negb_true_iff _)) in H
+  | H : bool_eqb _ _ = true |- _ => apply (proj1 (bool_eqb_eq _ _)) in H
+  | H : optnat_eqb _ _ = true |- _ => apply (proj1 (optnat_eqb_eq _ _)) in H
+  | H : outcome_eqb _ _ = true |- _ => apply (proj1 (outcome_eqb_eq _ _)) in H
+  | H : optout_eqb _ _ = true |- _ => apply (proj1 (optout_eqb_eq _ _)) in H
+  | H : is_none _ = true |- _ => apply (proj1 (is_none_true _)) in H
+  | H : owned_by _ _ _ = true |- _ => apply (proj1 (owned_by_eq _ _ _)) in H
+  | H : running _ = false |- _ => apply (proj1 (running_false _)) in H
   end.
 
 (* split [H : <nested ifs and matches> = Some s'] into its successful branches *)
@@ -142,10 +142,51 @@ Ltac inv_step H :=
   match type of H with
   | step ?c ?s ?e = Some ?s' =>
       let t := fresh "t" in let o := fresh "o" in
-      destruct e as [t o]; unfold step in H; destruct t;
+      destruct e as [t o]; destruct t; cbv beta iota delta [step] in H;
       try discriminate H;
       unfold step_m, step_job, step_c, loop_ev in H;
       split_step H; try discriminate H;
       injection H as H; subst s'; norm_guards; subst
+  end.
+
+
+(* ---- simplification of states after a step ----------------------------------- *)
+
+Lemma tid_eqb_spec : forall a b, reflect (a = b) (tid_eqb a b).
+Proof. intros a b. destruct (tid_eqb a b) eqn:E; constructor; [now apply tid_eqb_eq|now apply tid_eqb_neq]. Qed.
+
+Ltac simp := cbn [now inside tbl nlocks owner aw res cp cres jp mp stopp xsub
+                  set_now set_inside set_tbl set_owner set_aw set_res set_cp set_cres set_jp set_mp set_stopp set_xsub setj] in *.
+
+Lemma sa_now : forall s i, now (sched_aw s i) = now s. Proof. intros; unfold sched_aw; destruct (aw s i); reflexivity. Qed.
+Lemma sa_inside : forall s i, inside (sched_aw s i) = inside s. Proof. intros; unfold sched_aw; destruct (aw s i); reflexivity. Qed.
+Lemma sa_tbl : forall s i, tbl (sched_aw s i) = tbl s. Proof. intros; unfold sched_aw; destruct (aw s i); reflexivity. Qed.
+Lemma sa_nlocks : forall s i, nlocks (sched_aw s i) = nlocks s. Proof. intros; unfold sched_aw; destruct (aw s i); reflexivity. Qed.
+Lemma sa_owner : forall s i, owner (sched_aw s i) = owner s. Proof. intros; unfold sched_aw; destruct (aw s i); reflexivity. Qed.
+Lemma sa_res : forall s i, res (sched_aw s i) = res s. Proof. intros; unfold sched_aw; destruct (aw s i); reflexivity. Qed.
+Lemma sa_cp : forall s i, cp (sched_aw s i) = cp s. Proof. intros; unfold sched_aw; destruct (aw s i); reflexivity. Qed.
+Lemma sa_cres : forall s i, cres (sched_aw s i) = cres s. Proof. intros; unfold sched_aw; destruct (aw s i); reflexivity. Qed.
+Lemma sa_jp : forall s i, jp (sched_aw s i) = jp s. Proof. intros; unfold sched_aw; destruct (aw s i); reflexivity. Qed.
+Lemma sa_mp : forall s i, mp (sched_aw s i) = mp s. Proof. intros; unfold sched_aw; destruct (aw s i); reflexivity. Qed.
+Lemma sa_stopp : forall s i, stopp (sched_aw s i) = stopp s. Proof. intros; unfold sched_aw; destruct (aw s i); reflexivity. Qed.
+Lemma sa_xsub : forall s i, xsub (sched_aw s i) = xsub s. Proof. intros; unfold sched_aw; destruct (aw s i); reflexivity. Qed.
+Lemma sa_aw : forall s i j, aw (sched_aw s i) j =
+  if Nat.eqb j i then match aw s i with AwNew => AwSched | x => x end else aw s j.
+Proof.
+  intros; unfold sched_aw. destruct (Nat.eqb_spec j i) as [->|N].
+  - destruct (aw s i) eqn:E; simpl; rewrite ?upd_same; auto.
+  - destruct (aw s i) eqn:E; simpl; rewrite ?upd_other; auto.
+Qed.
+#[export] Hint Rewrite sa_now sa_inside sa_tbl sa_nlocks sa_owner sa_res sa_cp sa_cres sa_jp sa_mp sa_stopp sa_xsub sa_aw : xl.
+
+Ltac simp2 := simp; autorewrite with xl in *; simp.
+
+Ltac dupd :=
+  unfold upd, updt in *;
+  repeat match goal with
+  | |- context [Nat.eqb ?a ?b] => destruct (Nat.eqb_spec a b)
+  | H : context [Nat.eqb ?a ?b] |- _ => destruct (Nat.eqb_spec a b)
+  | |- context [tid_eqb ?a ?b] => destruct (tid_eqb_spec a b)
+  | H : context [tid_eqb ?a ?b] |- _ => destruct (tid_eqb_spec a b)
   end.
 
